@@ -13,7 +13,7 @@ func init() {
 	registry["C05"] = func() []*seqmc.Spec {
 		cap := 4
 		if thorough {
-			cap = 6
+			cap = 9
 		}
 		return []*seqmc.Spec{
 			{Property: "C05", Component: "Queue", Inits: []string{"empty"}, New: func(string) seqmc.Sys {
